@@ -19,6 +19,9 @@ Arguments nl_dict : simpl never.
 Arguments unique_name : simpl never.
 Arguments tb_label : simpl never.
 
+Lemma outcome_eqb_spec a b : outcome_eqb a b = true <-> a = b.
+Proof. split; [destruct a, b; simpl; congruence | intros ->; destruct b; reflexivity]. Qed.
+
 (* ------------------------------------------------------------------ *)
 (* the result events other than handler calls; the handler calls        *)
 (* ------------------------------------------------------------------ *)
